@@ -8,7 +8,8 @@
 (* semantics (Extract) returns exactly the expected exchanges in index order.    *)
 (* Every bundle is exported ("VEC") and replayed on the real writer and reader.  *)
 EXTENDS Bundle, TLC, Json
-CONSTANTS MaxEx
+CONSTANTS MaxEx,
+          Tmpl        \* which templates may be appended (subset of 1..10)
 VARIABLES b, done
 
 U1 == <<104,116,116,112,115,58,47,47,97,46,116,101,115,116,47>>          \* https://a.test/
@@ -33,7 +34,7 @@ Init == /\ b \in { [ver |-> v, hasprimary |-> hp, primary |-> U1, hasmanifest |-
         /\ (b.ver = "b1" => b.hasprimary)
         /\ done = FALSE
 Next == /\ ~done
-        /\ \/ Len(b.exs) < MaxEx /\ \E t \in 1..Len(Templates) : b' = [b EXCEPT !.exs = Append(b.exs, Templates[t])] /\ done' = FALSE
+        /\ \/ Len(b.exs) < MaxEx /\ \E t \in Tmpl : b' = [b EXCEPT !.exs = Append(b.exs, Templates[t])] /\ done' = FALSE
            \/ done' = TRUE /\ b' = b /\ PrintT("VEC " \o ToJson([b |-> b, refused |-> Refused(b)]))
 Spec == Init /\ [][Next]_<<b, done>>
 
